@@ -80,9 +80,9 @@ def run_frames(ctx):
     for s in frame_streams(ctx):
         for tail in (("eof", "timeout") if len(s) <= 2 else (rnd.choice(["eof", "timeout"]),)):
             api = rnd.choice(["recv", "recvdata:1", "rdf:1", "rf", "recvdata:0"])
-            # recv() decodes text to str; with per-fragment delivery (a caller opt-in outside C17's quantifier) a fragment
-            # may end inside a code point, so fire_cont_frame is exercised through the bytes-returning calls only
-            cfg = {"tail": tail, "to": rnd.choice([1000, 1000, 0, None]), "skip": 0, "fire": 0 if api == "recv" else rnd.choice([0, 0, 1])}
+            # recv() decodes text to str: with per-fragment delivery a fragment may end inside a code point, with validation
+            # off the message may be ill-formed — the call must still raise a documented exception (C17_recv_no_internal)
+            cfg = {"tail": tail, "to": rnd.choice([1000, 1000, 0, None]), "skip": rnd.choice([0, 0, 1]), "fire": rnd.choice([0, 0, 1])}
             if len(s) > 3 and rnd.random() < 0.3:
                 cut = sorted(rnd.sample(range(1, len(s)), min(len(s) - 1, rnd.randint(1, 3))))
                 pts = [0] + cut + [len(s)]
@@ -91,6 +91,14 @@ def run_frames(ctx):
                 ev = [("chunk", s)] if s else []
             sessions.append((cfg, ev, [api] * 4))
             meta.append((s, tail, api))
+    # directed: undecodable text reaching the str-returning call, in every configuration
+    for s in (b"\x01\x02\xe3\x81\x80\x01\x82", b"\x81\x01\xff", b"\x81\x02\xc3\x28", b"\x01\x01\xf0\x00\x01\x9f\x80\x02\x98\x80",
+              b"\x81\x03\xed\xa0\x80", b"\x01\x03ab\xc3\x89\x00\x80\x01\xa9"):
+        for fire in (0, 1):
+            for skip in (0, 1):
+                for tail in ("eof", "timeout"):
+                    sessions.append(({"tail": tail, "to": 1000, "skip": skip, "fire": fire}, [("chunk", s)], ["recv"] * 4))
+                    meta.append((s, tail, "recv"))
     res = rx.run_sessions(ctx, "session:arbitrary-bytes", sessions)
     for (s, tail, api), (impl, model, ws, sock, line) in zip(meta, res):
         outs = rx.results(impl)
